@@ -125,8 +125,33 @@ def run(ctx):
            "child order must not matter for equality and hash alike", eq.lineno)
     # distance / LCA
     dt = s.func("TreeNode.distance_to")
+    # two climbs, one from each of the two nodes, each adding the branch length of every node below the LCA
+    starts_ = []
+    climbs_ok = True
+
+    def scan_climbs(block):
+        nonlocal climbs_ok
+        for k, st in enumerate(block):
+            if isinstance(st, ast.While):
+                prev = block[k - 1] if k else None
+                if not (isinstance(prev, ast.Assign) and same_expr(prev.targets[0], "current_node")):
+                    climbs_ok = False
+                    continue
+                starts_.append(ast.unparse(prev.value))
+                adds = [a for a in ast.walk(st) if isinstance(a, ast.AugAssign) and isinstance(a.op, ast.Add) and same_expr(a.target, "distance")]
+                climbs_ok = climbs_ok and same_expr(st.test, "current_node is not lca") and not st.orelse \
+                    and not any(isinstance(x, (ast.Break, ast.Continue, ast.Return)) for x in ast.walk(st)) \
+                    and any(same_expr(a.value, "current_node._distance") for a in adds) \
+                    and isinstance(st.body[-1], ast.Assign) and same_expr(st.body[-1].targets[0], "current_node") \
+                    and same_expr(st.body[-1].value, "current_node._parent")
+            for fld in ("body", "orelse"):
+                if isinstance(getattr(st, fld, None), list) and not isinstance(st, ast.While):
+                    scan_climbs(getattr(st, fld))
+
+    scan_climbs(dt.body)
     ctx.ob("R3.distance-is-path-sum", TREE, "TreeNode.distance_to", "sum of _distance from both nodes up to the LCA",
-           ast.unparse(dt).count("while current_node is not lca") == 2 and ast.unparse(dt).count("distance += current_node._distance") == 2,
+           climbs_ok and sorted(starts_) == sorted(["self", param_names(dt)[1]])
+           and same_expr(next((st.value for st in dt.body if isinstance(st, ast.Assign) and same_expr(st.targets[0], "lca")), None), f"self.lowest_common_ancestor({param_names(dt)[1]})"),
            "the distance is the sum of branch lengths on both paths to the lowest common ancestor", dt.lineno)
 
     # ---------------- R4 clustering ------------------------------------------------------
@@ -146,12 +171,38 @@ def run(ctx):
                         ok = vals[a_] == vals[b__] and "not is_clustered_v[k] and k != i_min" in ast.unparse(b.test)
         ctx.ob("R4.symmetric-update", rel, q, f"{mat}[i_min, k] and {mat}[k, i_min] receive the same value", ok,
                "the merged cluster's distances must be written to both triangles for every other unclustered node", f.lineno)
-        ctx.ob("R4.retire-merged", rel, q, "nodes[j_min] = None; is_clustered_v[j_min] = True",
-               "nodes[j_min] = None" in t and "is_clustered_v[j_min] = True" in t and "nodes[i_min] = TreeNode((nodes[i_min], nodes[j_min])" in t,
+        # the binary join: nodes[A] = TreeNode((nodes[A], nodes[B]), ...) retires exactly B in the same block
+        ok_ret = False
+        for parent in ast.walk(f):
+            for fld in ("body", "orelse"):
+                block = getattr(parent, fld, None)
+                if not isinstance(block, list):
+                    continue
+                for st in block:
+                    if isinstance(st, ast.Assign) and isinstance(st.value, ast.Call) and call_name(st.value) == "TreeNode" and st.value.args \
+                            and isinstance(st.value.args[0], ast.Tuple) and len(st.value.args[0].elts) == 2 and isinstance(st.targets[0], ast.Subscript):
+                        a_, b_ = (ast.unparse(x) for x in st.value.args[0].elts)
+                        tgt = ast.unparse(st.targets[0])
+                        txts = [ast.unparse(x) for x in block]
+                        bi = b_[len("nodes["):-1] if b_.startswith("nodes[") else "?"
+                        ai = a_[len("nodes["):-1] if a_.startswith("nodes[") else "?"
+                        ok_ret = tgt == a_ and f"{b_} = None" in txts and f"is_clustered_v[{bi}] = True" in txts \
+                            and f"{a_} = None" not in txts and f"is_clustered_v[{ai}] = True" not in txts
+        ctx.ob("R4.retire-merged", rel, q, "nodes[j_min] = None; is_clustered_v[j_min] = True", ok_ret,
                "exactly the absorbed node is retired and the merged node takes the place of the other", f.lineno)
-        ctx.ob("R4.min-search", rel, q, "for i: for j in range(i): skip clustered; dist < dist_min",
-               "for j in range(i):" in t and t.count("if is_clustered_v[i]:") >= 1 and t.count("if is_clustered_v[j]:") >= 1
-               and "if dist < dist_min:" in t and "if i_min == -1 or j_min == -1:" in t,
+        # the search: the loop nest that updates the minimum runs over the lower triangle and skips clustered rows and columns
+        upd = [st for st in ast.walk(f) if isinstance(st, ast.If) and isinstance(st.test, ast.Compare) and same_expr(st.test.comparators[0], "dist_min")
+               and any(isinstance(b, ast.Assign) and same_expr(b.targets[0], "i_min") for b in st.body)]
+        ok_ms = False
+        if len(upd) == 1:
+            known = facts.facts_at(f, upd[0])
+            inner = [lp for lp in ast.walk(f) if isinstance(lp, ast.For) and any(x is upd[0] for x in ast.walk(lp))]
+            inner_ok = any(same_expr(lp.iter, "range(i)") and same_expr(lp.target, "j") for lp in inner) \
+                and any(same_expr(lp.target, "i") and isinstance(lp.iter, ast.Call) and call_name(lp.iter) == "range" and len(lp.iter.args) == 1 for lp in inner)
+            ok_ms = isinstance(upd[0].test.ops[0], ast.Lt) and spec("not is_clustered_v[i]") in known and spec("not is_clustered_v[j]") in known and inner_ok \
+                and any(isinstance(b, ast.Assign) and same_expr(b.targets[0], "j_min") and same_expr(b.value, "j") for b in upd[0].body) \
+                and any(isinstance(b, ast.Assign) and same_expr(b.targets[0], "i_min") and same_expr(b.value, "i") for b in upd[0].body)
+        ctx.ob("R4.min-search", rel, q, "for i: for j in range(i): skip clustered; dist < dist_min", ok_ms and "if i_min == -1 or j_min == -1:" in t,
                "the closest pair is searched over the unclustered lower triangle", f.lineno)
         ctx.ob("R4.input-checks", rel, q, "symmetric, no NaN, finite, non-negative",
                "np.allclose(distances.T, distances)" in t and "np.isnan(distances).any()" in t and "(distances < 0).any()" in t
@@ -177,6 +228,8 @@ def run(ctx):
 
 
 MUTANTS = [
+    Mutant("distance-starts-at-parent", TREE, "        current_node = self\n        while current_node is not lca:", "        current_node = self._parent\n        while current_node is not lca:", "R3.distance-is-path-sum"),
+    Mutant("nj-search-includes-clustered-column", NJ, "                if is_clustered_v[j]:\n                    continue\n                dist = corr_distances_v[i,j]", "                dist = corr_distances_v[i,j]", "R4.min-search", qualname="neighbor_joining"),
     Mutant("colon-allowed", TREE, "illegal_chars = [\",\",\":\",\";\",\"(\",\")\"]", "illegal_chars = [\",\",\";\",\"(\",\")\"]", "R1.structural-char-refused"),
     Mutant("upgma-one-triangle", UPGMA, "                distances_v[k,i_min] = mean\n", "", "R4.symmetric-update"),
     Mutant("nj-one-triangle", NJ, "                distances_v[k,i_min] = dist\n", "", "R4.symmetric-update"),
